@@ -18,6 +18,7 @@ from vlib.core import Res
 PROP = "C11"
 SHARDS = {"quick": 16, "thorough": 16}
 TIME_LIMIT = {"quick": 2400, "thorough": 8 * 3600}
+CASE_TIMEOUT_S = 300   # a case that takes longer is inconclusive (counted as ambiguous), never a violation
 RULE = ("Hypothesis: 96..160 px noise-free or low-noise images (SIN/TAN/ZEA/ARC/STG, any dec <= 80, 20..60 arcsec pixels) with "
         "4..15 islands: round, elongated (axis ratio 3-5), L-shaped (two overlapping components) and merged blobs; regions = "
         "circles or convex polygons at a depth whose HEALPix resolution is <= 1/2 pixel whose edge is placed THROUGH 1-3 chosen "
@@ -47,7 +48,7 @@ case_strategy = st.fixed_dictionaries({
     "clip": st.sampled_from([(5.0, 4.0), (5.0, 4.0), (6.0, 3.0), (10.0, 10.0)]),
     "noise": st.sampled_from([0.0, 0.0, 0.25]), "seed": st.integers(0, 2 ** 31 - 1),
     "region": st.fixed_dictionaries({
-        "kind": st.sampled_from(["through", "through", "through", "whole", "disjoint"]),
+        "kind": st.sampled_from(["through", "through", "through", "whole", "disjoint", "inside", "holed"]),
         "shape": st.sampled_from(["circle", "circle", "poly"]),
         "targets": st.lists(st.tuples(st.integers(0, 30), f(0.05, 0.95), f(0, 360), f(8, 60)), min_size=1, max_size=3),
     }),
@@ -132,10 +133,36 @@ def build_region(c, w, shape, islands_px):
         far = refs.vdest(cra, cdec, half * 2.5 + 0.2, rc["targets"][0][2])
         reg.add_circles(math.radians(float(far[0])), math.radians(float(far[1])), math.radians(half * 0.5))
         return reg, depth
+    if rc["kind"] == "holed" and islands_px:
+        # a non-convex region: a disc covering the whole image (corners and centre included) minus a small disc around
+        # one island, which then lies wholly in the hole
+        depth = max(3, int(math.ceil(math.log2(58.6323 / (1.0 * s)))))
+        reg = Region(maxdepth=depth)
+        reg.add_circles(math.radians(cra), math.radians(cdec), math.radians(half * 1.25))
+        isl = sorted(islands_px[rc["targets"][0][0] % len(islands_px)])
+        ra, dec = island_sky(w, isl)
+        cen = (float(np.mean([p[1] for p in isl])) + 1.0, float(np.mean([p[0] for p in isl])) + 1.0)
+        hra, hdec = (float(v) for v in w.pix2sky(*cen))
+        rad = float(np.max(refs.vsep(hra, hdec, ra, dec))) + (1.5 + 4 * rc["targets"][0][1]) * s
+        hole = Region(maxdepth=depth)
+        hole.add_circles(math.radians(hra), math.radians(hdec), math.radians(rad))
+        reg.without(hole)
+        return reg, depth
     depth = min(16, max(3, int(math.ceil(math.log2(58.6323 / (0.5 * s))))))
     reg = Region(maxdepth=depth)
     if not islands_px:
         reg.add_circles(math.radians(cra), math.radians(cdec), math.radians(10 * s))
+        return reg, depth
+    if rc["kind"] == "inside":
+        # a tiny region lying wholly inside an island (only interior pixels of the island have their centre in it)
+        for ti, frac, phi, dist_px in rc["targets"]:
+            isl = sorted(islands_px[ti % len(islands_px)])
+            rr = np.array([p[0] for p in isl])
+            cc = np.array([p[1] for p in isl])
+            # the island pixel closest to the centroid
+            k = int(np.argmin((rr - rr.mean()) ** 2 + (cc - cc.mean()) ** 2))
+            pra, pdec = (float(v) for v in w.pix2sky(cc[k] + 1.0, rr[k] + 1.0))
+            reg.add_circles(math.radians(pra), math.radians(pdec), math.radians((0.4 + 1.2 * frac) * s))
         return reg, depth
     for ti, frac, phi, dist_px in rc["targets"]:
         isl = sorted(islands_px[ti % len(islands_px)])
